@@ -522,6 +522,8 @@ def check_c17(tier, seed, repo):
                 continue
             p = data.TimePoint(**kw)
             ref = posix_fields(p, cal)
+            if not 0 <= int(ref["%Y"]) <= 9999:
+                continue        # civil year outside 0000-9999 (e.g. 9999-W52-7): not quantified over
             for fmt in FORMATS:
                 n += 1
                 want = fmt
